@@ -141,6 +141,27 @@ Theorem C16_lost_answer_safe_delete : forall c w x ce r t, nth_error (heap (w_cl
      OErr (transport_exn t), 1).
 Proof. exact lost_safe_delete. Qed.
 
+(* The same through the module's connection pool (Retry(3, allowed_methods = GET, HEAD)): the lost answer to a
+   write is not followed by a repetition of the write - transport error, server as the processed request left it,
+   client untouched -, the lost answer to a lookup is followed by a repetition, which is an undisturbed lookup. *)
+Theorem C16_lost_answer_pool_add : forall c w x ce, nth_error (heap (w_cl w)) x = Some ce ->
+  step c (Some (0, FLostPool)) w (Add x)
+  = (mkWorld (fst (serve c (w_sv w) (mkReq PUT (doc_url c (c_id ce)) None (Some (c_val ce))))) (w_cl w), OErr XConn, 1).
+Proof. exact lostpool_add. Qed.
+Theorem C16_lost_answer_pool_commit : forall c w x ce url r, nth_error (heap (w_cl w)) x = Some ce ->
+  String.eqb (c_src ce) "" = false -> parse_source (c_src ce) = Some url -> sassoc url (revs (w_cl w)) = Some r ->
+  step c (Some (0, FLostPool)) w (Commit x)
+  = (mkWorld (fst (serve c (w_sv w) (mkReq PUT url (Some r) (Some (c_val ce))))) (w_cl w), OErr XConn, 1).
+Proof. exact lostpool_commit. Qed.
+Theorem C16_lost_answer_pool_safe_delete : forall c w x ce r, nth_error (heap (w_cl w)) x = Some ce ->
+  sassoc (doc_url c (c_id ce)) (revs (w_cl w)) = Some r ->
+  step c (Some (0, FLostPool)) w (Discard x true)
+  = (mkWorld (fst (serve c (w_sv w) (mkReq DELETE (doc_url c (c_id ce)) (Some r) None))) (w_cl w), OErr XConn, 1).
+Proof. exact lostpool_safe_delete. Qed.
+Theorem C16_lost_answer_pool_lookup : forall c w i,
+  step c (Some (0, FLostPool)) w (GetId i) = step c None w (GetId i).
+Proof. exact lostpool_get. Qed.
+
 (* Identifiers of any shape: quoting is injective (the server's decoding inverts it), the document URL
    recovered from an object's `source` by commit/update is the very string used as revision-store key
    and request URL by add/get/discard/contains, and the server routes it to the document named by the
